@@ -38,6 +38,10 @@ CLAIMED = {
   text="Machine-checked proof: the constructor keeps exactly the iterable's items and fixes the value type by the first item (or value_type when empty), mixed/non-scalar items raise TypeError; after ANY operation and hence any history (induction over fold_left) every element is an instance of the unchanged value type; wrong-typed set/insert/append/slice-assign raise TypeError and store nothing. List behaviour is ListSpec itself (the class stores a real list); three-way correspondence with real lists over all iterable kinds (incl. one-shot iterators, self, str), all slice shapes, hostile mutation of the caller's list.",
   design="DESIGN.md §7 C18", tech="Coq invariant proof by induction over operation histories + three-way in-Coq correspondence",
   note=TB + "hand model of Vector tied by correspondence; extend/+= with a wrong-typed item: spec accepts nothing-stored or well-typed-prefix-stored."),
+ "C19": dict(
+  text="Machine-checked proof over the model of the extended-property dictionary: an attribute write is visible in the dictionary and vice versa, other keys untouched, delete reads as '', non-str rejected with TypeError, constructor conflict rule (ValueError / sets units / TypeError); Scalar comparison table for all values (ValueError for different units first, TypeError for numeric vs str, value comparison otherwise), the four operators form one total order on finite numbers (exact int/float comparison), == needs equal value and units, only scalar types accepted; XYData construction succeeds iff both axes 1-D, equal length, one supported dtype, else TypeError/ValueError. Correspondence: write histories on six classes observing both views after each step, constructor matrix, comparison cross product incl. huge ints vs floats, nan, inf, non-ASCII, XYData matrix over 17 dtypes.",
+  design="DESIGN.md §7 C19", tech="Coq proof (case analysis over a hand model) + in-Coq correspondence",
+  note=TB + "hand model tied by correspondence; the 'two views' clause is structural in the model (attribute = lookup) and is what the histories check on the real objects."),
  "C20": dict(
   text="Machine-checked proof: timing_init (validation order of the three strategies) accepts exactly the combinations of the mode table and otherwise raises TypeError/ValueError; flags equal presence, absent members raise RuntimeError, mode preserved, empty has no members, equality iff all members equal. Correspondence EXHAUSTIVE over modes x member kinds (three families, zero values, wrong types) x timestamps kinds x constructors, with setattr and hostile-caller probes on every constructed object.",
   design="DESIGN.md §7 C20", tech="Coq proof (case analysis) over a hand model + exhaustive in-Coq correspondence",
